@@ -56,7 +56,8 @@ class WhoSigned:
             try:
                 sig_pair, sig_type = parse_signature_blob(sig_blob)
                 sig_hash = vmc.signature_for_hash_type_f(sig_type, [sig_blob], vmc)
-            except ValueError:
+            except (ValueError, ScriptError):
+                # no digest for this blob (e.g. a hash type the coin refuses): it matches no key
                 pass
         except (IndexError, ValueError):
             pass
@@ -81,7 +82,9 @@ class WhoSigned:
                 try:
                     sig_pair, sig_type = parse_signature_blob(sig_blob)
                     sig_hash = vmc.signature_for_hash_type_f(sig_type, [sig_blob], vmc)
-                except ValueError:
+                except (ValueError, ScriptError):
+                    # no digest for this blob (e.g. the placeholder's hash type 1 on a fork-id coin):
+                    # it matches no key, the other signatures are still reported
                     pass
                 sig_blobs.append((sig_blob, sig_hash))
         except IndexError:
